@@ -75,33 +75,38 @@ def determinism(chk, quick):
 
 
 def sensitivity(chk, only=None):
-    """Every recorded property-breaking change is applied to a scratch worktree of /repo (under /tmp, removed afterwards together with
-    its build output); the quick checks named in its meta.json are run against that worktree (ZKSIM_ALT_REPO: cargo `paths` override,
-    separate build / replay / evidence directories) and must report a violation. /repo's working tree and /verif/evidence are not touched."""
+    """Every recorded property-breaking change is applied to a scratch worktree of /repo (under /tmp, one worktree reused for the
+    whole run so that builds stay incremental, removed afterwards together with its build output); the quick checks named in its
+    meta.json are run against that worktree (ZKSIM_ALT_REPO: cargo `paths` override, separate build / replay / evidence
+    directories) and must report a violation. /repo's working tree and /verif/evidence are not touched."""
     import shutil
     verif = chk.VERIF
     rows = []
     rc = 0
     metas = sorted(glob.glob(os.path.join(verif, "seeded", "*", "meta.json"))) + sorted(glob.glob(os.path.join(verif, "sensitivity", "*", "meta.json")))
-    for meta_path in metas:
-        d = os.path.dirname(meta_path)
-        meta = json.load(open(meta_path))
-        sid = os.path.basename(d)
-        if only and sid not in only:
-            continue
-        patch = os.path.join(d, "patch.diff")
-        wt = os.path.join("/tmp", "zksens-" + sid)
-        alt_build = os.path.join(verif, "build-alt", os.path.basename(wt))
-        subprocess.run(["git", "-C", "/repo", "worktree", "remove", "--force", wt], capture_output=True)
-        shutil.rmtree(wt, ignore_errors=True)
-        mk = subprocess.run(["git", "-C", "/repo", "worktree", "add", "-q", "--detach", wt, "HEAD"], capture_output=True, text=True)
-        if mk.returncode != 0:
-            print(f"{sid}: cannot create scratch worktree: {mk.stderr[:200]}")
-            return 2
-        try:
+    wt = os.path.join("/tmp", "zksens-%d" % os.getpid())
+    alt_build = os.path.join(verif, "build-alt", os.path.basename(wt))
+    subprocess.run(["git", "-C", "/repo", "worktree", "remove", "--force", wt], capture_output=True)
+    shutil.rmtree(wt, ignore_errors=True)
+    mk = subprocess.run(["git", "-C", "/repo", "worktree", "add", "-q", "--detach", wt, "HEAD"], capture_output=True, text=True)
+    if mk.returncode != 0:
+        print(f"cannot create scratch worktree: {mk.stderr[:200]}")
+        return 2
+    try:
+        for meta_path in metas:
+            d = os.path.dirname(meta_path)
+            meta = json.load(open(meta_path))
+            sid = os.path.basename(d)
+            if only and sid not in only:
+                continue
+            patch = os.path.join(d, "patch.diff")
+            subprocess.run(["git", "-C", wt, "checkout", "-q", "--", "."], capture_output=True)
+            subprocess.run(["git", "-C", wt, "clean", "-fdq", "-e", "target"], capture_output=True)
             ap = subprocess.run(["git", "-C", wt, "apply", patch], capture_output=True, text=True)
             if ap.returncode != 0:
-                print(f"{sid}: patch does not apply: {ap.stderr[:200]}")
+                ap = subprocess.run(["git", "-C", wt, "apply", "-3", patch], capture_output=True, text=True)
+            if ap.returncode != 0:
+                print(f"sensitivity {sid}: patch does not apply: {ap.stderr[:200]}", flush=True)
                 rows.append((sid, "patch does not apply"))
                 rc = 1
                 continue
@@ -114,15 +119,15 @@ def sensitivity(chk, only=None):
                 if p.returncode == 1 and viol:
                     caught_by.append(prop)
                 elif p.returncode == 2:
-                    print(f"{sid}: check {prop} ended with a harness error: {[l for l in p.stdout.splitlines() if 'HARNESS' in l or 'harness' in l][:3]}")
+                    print(f"{sid}: check {prop} ended with a harness error: {[l for l in (p.stdout + p.stderr).splitlines() if 'HARNESS' in l or 'harness' in l][:3]}")
             rows.append((sid, "caught by " + ",".join(caught_by) if caught_by else "MISSED"))
             if not caught_by:
                 rc = 1
-        finally:
-            subprocess.run(["git", "-C", "/repo", "worktree", "remove", "--force", wt], capture_output=True)
-            shutil.rmtree(wt, ignore_errors=True)
-            shutil.rmtree(alt_build, ignore_errors=True)
-        print(f"sensitivity {sid}: {rows[-1][1]}", flush=True)
+            print(f"sensitivity {sid}: {rows[-1][1]}", flush=True)
+    finally:
+        subprocess.run(["git", "-C", "/repo", "worktree", "remove", "--force", wt], capture_output=True)
+        shutil.rmtree(wt, ignore_errors=True)
+        shutil.rmtree(alt_build, ignore_errors=True)
     return rc
 
 
